@@ -367,12 +367,35 @@ def install(I):
         nz = [b for b in a.bits if b != 0]
         return BV(1, [pred('pow2', a.bits)])
 
+    def bitcount(kind):
+        def f(ctx):
+            a = ctx.I.norm(ctx.st, ctx.args[0])
+            if not a.is_const():
+                if kind == 'tz':
+                    z = a.low_zeros()
+                    # known low zeros followed by a known one decide it
+                    if z < a.w and a.bits[z] == 1:
+                        return BV.const(32, z)
+                return ctx.I.fresh_num(ctx.st, 32, kind, [(0, a.w)])
+            v = a.value()
+            if kind == 'tz':
+                r = a.w if v == 0 else (v & -v).bit_length() - 1
+            elif kind == 'lz':
+                r = a.w - v.bit_length()
+            else:
+                r = bin(v).count('1')
+            return BV.const(32, r)
+        return f
+
     for t in ('u8', 'u16', 'u32', 'u64', 'usize'):
         for b in ('Add', 'Sub', 'Mul'):
             M['core::num::<impl %s>::checked_%s' % (t, b.lower())] = checked(b)
             M['core::num::<impl %s>::wrapping_%s' % (t, b.lower())] = wrapping(b)
         M['core::num::<impl %s>::saturating_sub' % t] = m_saturating_sub
         M['core::num::<impl %s>::is_power_of_two' % t] = m_is_pow2
+        M['core::num::<impl %s>::trailing_zeros' % t] = bitcount('tz')
+        M['core::num::<impl %s>::leading_zeros' % t] = bitcount('lz')
+        M['core::num::<impl %s>::count_ones' % t] = bitcount('ones')
 
     def m_to_ne_bytes(ctx):
         a = ctx.args[0]
